@@ -114,7 +114,7 @@ def cells(tier):
 
 def obligations(tier):
     th = tier == "thorough"
-    return [dict(fn="mutation_stop_points", cell=c, budget_s=900 if th else 30, expect_confirm=th) for c in cells(tier)]
+    return [dict(fn="mutation_stop_points", cell=c, budget_s=900 if th else 20, expect_confirm=th) for c in cells(tier)]
 
 
 def corpus():
